@@ -844,6 +844,7 @@ impl<'a> Work<'a> {
         crate::verif::LoopSnap {
             states,
             counts: crate::verif::counts_array(&self.build_states.counts),
+            total: self.build_states.counts.total(),
             total_pending: self.build_states.total_pending,
             pools: self
                 .build_states
